@@ -587,7 +587,15 @@ def run_e2e(sc, tmp, record=None, max_rounds=40):
                 self.returncode = rc[self.name]
             return self.returncode
 
+    polls = [0]
+
     def sleep(_s):
+        # watchdog (added by the coordinator): a node whose queue never drains must not hang the check;
+        # an unflagged job that is never started once its blockers have outcomes is a C04 violation
+        polls[0] += 1
+        if polls[0] > 4000:
+            raise RuntimeError("node idles forever: queued jobs are never started although nothing is running "
+                               "(JobQueue polled 4000 times)")
         pend = [n for n in launched if n not in finished]
         for n in pend:
             if rng.random() < 0.6:
